@@ -85,8 +85,8 @@ Print Assumptions C07_add_peering2_preserves.
 (* UNCONDITIONAL STATEMENT (false of the faithful model, see the ..._refuted theorems and the notes):
      forall sub fl g o drawn hint, WF g -> WF (fst (step sub fl g o drawn hint))
    PROVED, for EVERY building call of the API made through a handle of an element that exists (25 of the 26 constructors
-   of `op`; the 26th, OStaleAddIface = add_interface through the kept handle of a REMOVED service, is a recorded finding,
-   C07_stale_add_interface_refuted): add_node, remove_node, node.add_component,
+   of `op`; the 26th, OStaleAddIface = add_interface through the kept handle of a REMOVED service, leaves an interface without
+   owner before a4fc126 and nothing since, C07_stale_add_interface_refuted): add_node, remove_node, node.add_component,
    node.add_storage, node.remove_component, add_facility, remove_facility, add_switch, remove_switch, add_network_service
    with or without interfaces, add_port_mirror_service, remove_network_service, node.add_network_service,
    node.remove_network_service, add_link, remove_link, connect_interface, disconnect_interface, peer, unpeer,
@@ -95,7 +95,8 @@ Print Assumptions C07_add_peering2_preserves.
    before it, including the states the rollbacks of add_facility / add_switch / add_network_service / peer /
    connect_interface leave; the removals are shown never to fail once they have deleted something.
    op_pre holds: enum arguments inside their enum; the documented domain of add_link / connect / disconnect (interfaces,
-   no service port handed in -- for disconnect_interface not needed when the library refuses peering ports, C07-10); what excludes exactly the signature of a recorded defect (rename / set_property('name') to a name
+   no service port handed in -- for disconnect_interface not needed when the library refuses peering ports, C07-10);
+   what excludes exactly the signature of a recorded defect (rename / set_property('name') to a name
    used in the scope, remove_link of a peering link, peer(a, a), a taken `<a>-<b>-link` name for peer); the repairs the
    proof relies on, as behaviour flags read off the running library (connect: 8b1a93d + 7b7379b; removals: 5286851);
    and three structural side conditions for the calls that remove service ports (every model the API builds has them,
@@ -271,8 +272,8 @@ Theorem C07_set_properties_name_refuted :
   step false flags_on g w_setprops_op [] [] = (g, Some ETopology).
 Proof. exact set_properties_name_refuted. Qed.
 Print Assumptions C07_set_properties_name_refuted.
-(* three entry points found in round 5 (HEAD e12ad6f = flags_head); the first two are refused under flags_on (proposed
-   C07-9, C07-10), the third has no repair on this side (C09's atomicity) *)
+(* three entry points found in round 5 (HEAD a4fc126 = flags_head); the first two are refused under flags_on (proposed
+   C07-9, C07-10), the third was repaired by a4fc126 (C09's side: the parent is looked up before the node is added) *)
 Theorem C07_add_link_non_interfaces_refuted :
   let g := run_hist false flags_head empty_graph w_rename_hist in
   WF g /\ ~ WF (fst (step false flags_head g w_linknodes_op [] [])) /\
@@ -288,7 +289,9 @@ Theorem C07_disconnect_peering_port_refuted :
 Proof. exact disconnect_peering_port_refuted. Qed.
 Print Assumptions C07_disconnect_peering_port_refuted.
 Theorem C07_stale_add_interface_refuted :
-  forall fl, ~ WF (fst (step false fl empty_graph w_stale_op [] [])) /\ snd (step false fl empty_graph w_stale_op [] []) = Some EQuery.
+  ~ WF (fst (step false flags_before_parent_first empty_graph w_stale_op [] [])) /\
+  snd (step false flags_before_parent_first empty_graph w_stale_op [] []) = Some EQuery /\
+  step false flags_head empty_graph w_stale_op [] [] = (empty_graph, Some EQuery).
 Proof. exact stale_add_interface_refuted. Qed.
 Print Assumptions C07_stale_add_interface_refuted.
 Theorem C07_peer_self_refuted :
